@@ -414,6 +414,12 @@ def run(rep, tier, seed, replay=None):
         ("silent-server", ["query", "-g", "teamfortress2", "-i", "127.0.0.1", "-p", str(silent.port), "--read-timeout", "1"]),
         ("zero-timeout", ["query", "-g", "teamfortress2", "-i", "127.0.0.1", "--read-timeout", "0"]),
         ("bad-port", ["query", "-g", "teamfortress2", "-i", "127.0.0.1", "-p", "99999"]),
+        ("nan-timeout", ["query", "-g", "teamfortress2", "-i", "127.0.0.1", "--read-timeout", "nan"]),
+        ("inf-timeout", ["query", "-g", "teamfortress2", "-i", "127.0.0.1", "--connect-timeout", "inf"]),
+        ("huge-timeout", ["query", "-g", "teamfortress2", "-i", "127.0.0.1", "--write-timeout", "1e30"]),
+        ("overflow-timeout", ["query", "-g", "teamfortress2", "-i", "127.0.0.1", "--read-timeout", "18446744073709551616"]),
+        ("negative-timeout", ["query", "-g", "teamfortress2", "-i", "127.0.0.1", "--read-timeout", "-1"]),
+        ("empty-timeout", ["query", "-g", "teamfortress2", "-i", "127.0.0.1", "--read-timeout", ""]),
         ("bad-format", ["query", "-g", "teamfortress2", "-i", "127.0.0.1", "-f", "yaml"]),
         ("bad-retries", ["query", "-g", "teamfortress2", "-i", "127.0.0.1", "--retries", "-1"]),
         ("missing-game", ["query", "-i", "127.0.0.1"]),
